@@ -282,7 +282,7 @@ Definition run_Client (kind : bytes) (a : sx) : option sx :=
                       then SL [SB sym_notable]
                       else let O := table_oracle T in
                            if N.eqb (Z.to_N sys) sys_npm && versions_ambiguous O l then SB sym_oom
-                           else sx_versions (snd (match_requirement O (mk_vkey sys [112] (Z.of_N vt_requirement) req) l))
+                           else sx_versions (match_requirement O (mk_vkey sys [112] (Z.of_N vt_requirement) req) l)
                   | None => badcase
                   end
               | _, _, _ => badcase
